@@ -89,15 +89,25 @@ def iso_defect(core, side):
 
 def compare_obj(t, exp):
     """Compare a real TT with the expected abstract object; returns None or a message."""
+    st = exp.get('st', 'exact')
+    if st == 'dead':
+        return None
     p = metadata_problem(t)
     if p:
         return 'metadata: ' + p
     rd, cd, r0, rN, v = expected_dense(exp['d'])
     if list(t.row_dims) != rd or list(t.col_dims) != cd:
         return 'dims: got rows %r cols %r, expected %r %r' % (t.row_dims, t.col_dims, rd, cd)
-    if t.ranks[0] != r0 or t.ranks[-1] != rN:
+    if st == 'opaque':
+        if t.ranks[0] > r0 or t.ranks[-1] > rN:
+            return 'boundary ranks: got %r, expected at most %d..%d' % (t.ranks, r0, rN)
+    elif t.ranks[0] != r0 or t.ranks[-1] != rN:
         return 'boundary ranks: got %r, expected %d..%d' % (t.ranks, r0, rN)
     got = contract(t.cores).reshape(-1)
+    if st == 'opaque':
+        if not np.all(np.isfinite(got)):
+            return 'value: non-finite entries'
+        v = got
     if got.shape != v.shape:
         return 'size: got %d entries, expected %d' % (got.size, v.size)
     if not np.all(np.isfinite(got)):
@@ -108,7 +118,7 @@ def compare_obj(t, exp):
         k = int(np.argmax(np.abs(got - v)))
         return 'value: max abs error %.3e (entry %d: got %r, expected %r)' % (err, k, got[k], v[k])
     for i, b in enumerate(exp.get('rk', [])):
-        if b and t.ranks[i] > b:
+        if b and b < 999 and t.ranks[i] > b:
             return 'rank: ranks[%d] = %d exceeds the bound %d' % (i, t.ranks[i], b)
     for i in exp.get('lo', []):
         dft = iso_defect(t.cores[i], 'left')
@@ -259,7 +269,7 @@ def apply_event(tt_mod, objs, ev):
         M = carray(ev['matrix']).real.copy()
         return res_or_self(A.rank_tensordot(M, mode=ev['mode'], overwrite=ow))
     if op == 'Concatenate':
-        other = B if ev['form'] == 'tt' else list(B.cores)
+        other = B if ev['form'] == 'tt' else [c.copy() for c in B.cores]
         return res_or_self(A.concatenate(other, overwrite=ow))
     if op == 'RankTranspose':
         return res_or_self(A.rank_transpose(overwrite=ow))
@@ -282,6 +292,19 @@ def apply_event(tt_mod, objs, ev):
         if r is not A:
             raise Mismatch('identity', 'ortho did not return self')
         return []
+    if op == 'OrthoTrunc':
+        r = ev['maxrank']
+        if ev['which'] == 'left':
+            res = A.ortho_left(max_rank=r)
+        elif ev['which'] == 'right':
+            res = A.ortho_right(max_rank=r)
+        else:
+            res = A.ortho(max_rank=r)
+        if res is not A:
+            raise Mismatch('identity', 'ortho*(max_rank) did not return self')
+        return []
+    if op in ('Svd', 'Pinv'):
+        return svd_pinv_event(tt_mod, A, ev, objs)
     if op == 'TT2QTT':
         return res_or_self(A.tt2qtt([list(x) for x in ev['rds']], [list(x) for x in ev['cds']]))
     if op == 'BuildCore':
@@ -303,6 +326,67 @@ def apply_event(tt_mod, objs, ev):
     if op == 'QTT2TT':
         return res_or_self(A.qtt2tt(list(ev['nums'])))
     raise KeyError(op)
+
+
+def unfold(val, index):
+    rd, cd, r0, rN, v = expected_dense(val)
+    m = int(np.prod(rd[:index]))
+    return v.reshape(m, -1)
+
+
+def svd_pinv_event(tt_mod, A, ev, objs):
+    """C05: global SVD / pseudoinverse of a vector-type train at a split index."""
+    TT = tt_mod.TT
+    index, ow = ev['index'], ev.get('ow', False)
+    M = unfold(ev['val'], index)
+    scale = max(1.0, float(np.max(np.abs(M))))
+    sv = np.linalg.svd(M, compute_uv=False)
+    if ev['op'] == 'Pinv':
+        thr = 10.0 ** (-ev['threxp']) if 'threxp' in ev else 0.0
+        p = A.pinv(index, threshold=thr, overwrite=ow)
+        if not isinstance(p, TT) or any(p is o for o in objs):
+            raise Mismatch('identity', 'pinv must return a new TT')
+        if True:
+            pm = metadata_problem(p)
+            if pm:
+                raise Mismatch('metadata', 'pinv: ' + pm)
+            got = contract(p.cores).reshape(M.shape)
+            exp = np.linalg.pinv(M, rcond=max(thr, 1e-13)).conj().T
+            if np.max(np.abs(got - exp)) > 1e-8 * max(1.0, float(np.max(np.abs(exp)))):
+                raise Mismatch('value', 'pinv: differs from conj-transpose of the Moore-Penrose pseudoinverse '
+                                        'of the unfolding (max abs error %.2e)' % np.max(np.abs(got - exp)))
+        return [p]
+    kw = {}
+    if 'threshold' in ev:
+        kw['threshold'] = ev['threshold']
+    if 'max_rank' in ev:
+        kw['max_rank'] = ev['max_rank']
+    u, s, v = A.svd(index, overwrite=ow, **kw)
+    for name, f in (('u', u), ('v', v)):
+        if not isinstance(f, TT):
+            raise Mismatch('type', 'svd: %s is not a TT' % name)
+        pm = metadata_problem(f)
+        if pm:
+            raise Mismatch('metadata', 'svd: %s: %s' % (name, pm))
+    s = np.asarray(s)
+    if s.ndim != 1 or u.ranks[-1] != len(s) or v.ranks[0] != len(s):
+        raise Mismatch('metadata', 'svd: ranks of u, s, v do not fit: %r %d %r' % (u.ranks, len(s), v.ranks))
+    if np.any(s < -1e-12) or np.any(np.diff(s) > 1e-9 * scale):
+        raise Mismatch('value', 'svd: singular values are not non-negative and non-increasing: %r' % (s,))
+    U = contract(u.cores).reshape(-1, len(s))
+    V = contract(v.cores).reshape(len(s), -1)
+    if 'threshold' not in ev and 'max_rank' not in ev:
+        if np.max(np.abs(U @ np.diag(s) @ V - M)) > 1e-9 * scale:
+            raise Mismatch('value', 'svd: u diag(s) v differs from the tensor (max abs error %.2e)' %
+                           np.max(np.abs(U @ np.diag(s) @ V - M)))
+        k = min(len(s), len(sv))
+        if np.max(np.abs(s[:k] - sv[:k])) > 1e-9 * scale or np.any(sv[k:] > 1e-9 * scale) or np.any(s[k:] > 1e-9 * scale):
+            raise Mismatch('value', 'svd: singular values %r differ from those of the unfolding %r' % (s, sv))
+    if np.max(np.abs(U.conj().T @ U - np.eye(len(s)))) > 1e-9:
+        raise Mismatch('isometry', 'svd: u does not have orthonormal columns')
+    if np.max(np.abs(V @ V.conj().T - np.eye(len(s)))) > 1e-9:
+        raise Mismatch('isometry', 'svd: v does not have orthonormal rows')
+    return [u, v]
 
 
 def _ranks_arg(ev):
